@@ -36,16 +36,24 @@ def all_groups():
 def extras_groups(rng: random.Random, n: int):
     """requests outside the main product: dtype= given, quantile without q, misaligned shapes, axis beyond the labels"""
     out = []
-    kinds = ["dtype", "noq", "misaligned", "axis-toomany", "axis-outside"]
+    # "npvalues": in-memory values grouped by chunked labels (has_dask holds through the labels only)
+    kinds = ["dtype", "noq", "misaligned", "axis-toomany", "axis-outside", "npvalues", "npvalues"]
     for i in range(n):
         k = kinds[i % len(kinds)]
         f, dt = rng.choice(cc.REDUCTIONS)
         if k == "noq":
             f, dt = "quantile", "f8"
         lnd, vnd, ax = rng.choice([s for s in cc.SHAPES if s[1] > s[0]] if k.startswith("axis-") else cc.SHAPES)
-        out.append(dict(func=f, dtype=dt, engine=rng.choice(cc.ENGINES), reindex=rng.choice(cc.REINDEX),
-                        bydask=rng.choice(cc.BYDASK), lnd=lnd, vnd=vnd, axis=ax, expected=rng.choice(cc.EXPECTED),
-                        layout=rng.choice(cc.LAYOUTS), extra=k))
+        g = dict(func=f, dtype=dt, engine=rng.choice(cc.ENGINES), reindex=rng.choice(cc.REINDEX),
+                 bydask=rng.choice(cc.BYDASK), lnd=lnd, vnd=vnd, axis=ax, expected=rng.choice(cc.EXPECTED),
+                 layout=rng.choice(cc.LAYOUTS), extra=k)
+        if k == "npvalues":
+            g["bydask"] = True
+            g["expected"] = True
+            g["layout"] = rng.choice([l for l in cc.LAYOUTS if l != "eager"])
+            if i % 2:
+                g["func"], g["dtype"] = rng.choice([r for r in cc.REDUCTIONS if r[0] in cc.ARG or r[0] in cc.FIRSTLAST])
+        out.append(g)
     return out
 
 
@@ -193,9 +201,9 @@ class C19(Prop):
             "(label ndim, value ndim, axis) in 14 combinations (1-D/2-D labels, 1-D..3-D values, axis None/last/first/all) x "
             "expected_groups given (+fill_value) or not x layout (in-memory, single block, sorted runs in 3-4 blocks, periodic, "
             "cohort-friendly, no requested label present, all labels missing; split_every=2 so that trees are >= 2 levels); "
-            "quick: seeded sample of 320 groups x 4 methods + 50 out-of-contract extras (dtype=, quantile without q, misaligned shapes, axis beyond / outside the label dims); thorough: full product of "
+            "quick: seeded sample of 320 groups x 4 methods + 84 extras (dtype=, quantile without q, misaligned shapes, axis beyond / outside the label dims, in-memory values with chunked labels); thorough: full product of "
             "reduction x method x reindex x label kind x expected x layout, each crossed with 5 (shape/axis, engine) pairs of a "
-            "seeded cyclic schedule covering all 56 pairs (21 840 cells) + 200 extras; each cell is called, then computed on "
+            "seeded cyclic schedule covering all 56 pairs (21 840 cells) + 350 extras; each cell is called, then computed on "
             "the synchronous scheduler; non-trivial = reached the compute phase or was refused; distinct = distinct cell keys")
     assumptions = [
         "arg-reductions over several label dimensions: the reference is flox's in-memory convention (position along the last reduced axis)",
@@ -206,11 +214,11 @@ class C19(Prop):
     def groups_for(self, rng, tier, search):
         if tier == "quick" and not search:
             allg = list(all_groups())
-            return rng.sample(allg, 320) + extras_groups(rng, 50)
+            return rng.sample(allg, 320) + extras_groups(rng, 84)
         if tier == "quick":
             allg = list(all_groups())
-            return rng.sample(allg, 900) + extras_groups(rng, 100)
-        return thorough_groups(rng, 5) + extras_groups(rng, 200)
+            return rng.sample(allg, 900) + extras_groups(rng, 140)
+        return thorough_groups(rng, 5) + extras_groups(rng, 350)
 
     def run(self, rng, tier, rep: Report, search=False):
         groups = self.groups_for(rng, tier, search)
